@@ -58,6 +58,10 @@ def handler(level, hk, rk, he):
         if he == "ret": bd.append(ret(num(-10 - level)))
         elif he == "rethrow": bd.append(throw("@exc", s("again%d" % level)))
         elif he == "fault": bd.append(ex(idx(lst(), num(1))))
+        elif he == "noretx":      # no 输出, and the block ends with a statement that HAS a value: the protected body still yields 空
+            bd += [decl("HC%d" % level, num(0)), ex(asg(var("HC%d" % level), bin_("add", var("HC%d" % level), num(41))))]
+        elif he == "noretc":
+            bd.append(ex(this("@content")))
         else: bd.append(mark("h%d-end" % level))
         return bd
     if hk == "none": return []
